@@ -4,7 +4,7 @@
 From Coq Require Import List ZArith Bool.
 From Coq.Strings Require Import Byte.
 Import ListNotations.
-From SV Require Import Text G_codes C05_Model C13_Model C13_Rx C13_Lemmas C13_Once C13_Depth C13_RxLemmas.
+From SV Require Import Text G_codes C05_Model C13_Model C13_Rx C13_Lemmas C13_Once C13_Depth C13_RxLemmas C13_GapMap C13_RxComplete C13_Occur.
 Local Open Scope Z_scope.
 
 (* P0 span_contains_match + frames, for every match reported by matchall: forward matches come first, then backward ones;
@@ -405,3 +405,88 @@ Example C13_witness_rx_gap :
   groupby_rf [mk_bm 1 6 (bs "A-TTG"%bs) (Some 1); mk_bm 6 9 (bs "ATG"%bs) (Some (-1)); mk_bm 7 9 (bs "TG"%bs) (Some 1)]
   = [(Some 1, [mk_bm 1 6 (bs "A-TTG"%bs) (Some 1); mk_bm 7 9 (bs "TG"%bs) (Some 1)]); (Some (-1), [mk_bm 6 9 (bs "ATG"%bs) (Some (-1))])].
 Proof. exact (conj eq_refl (conj eq_refl (conj eq_refl (conj eq_refl (conj eq_refl (conj eq_refl eq_refl)))))). Qed.
+
+(* ================================================================== round 7, second part *)
+(* GAP TRANSPARENCY (unbounded).  For plain words (non-empty, letters that are neither "." nor gap characters; true of start and
+   stop) matching the gap-tolerant pattern on the gapped text IS matching the plain pattern on the degapped text: the spans of
+   re.finditer correspond through the residue numbering (rank g s k = number of residues among the first k columns) ... *)
+Theorem C13_gap_transparent_finditer : forall g ws s,
+  forallb (fun w => nonempty w && plain_word g w) ws = true ->
+  map (respan g s) (finditer (map (compile_word (Some g)) ws) s 0 0) = finditer (map (compile_word None) ws) (degap g s) 0 0.
+Proof. exact (fun g ws s H => finditer_gap_transparent g ws H s). Qed.
+Print Assumptions C13_gap_transparent_finditer.
+
+(* ... the text of a span, degapped, is the text of the translated span; reverse complement and gap removal commute and the
+   residue numberings of the two strands are mirror images ... *)
+Theorem C13_gap_bijection : forall g s,
+  (forall b e, (b <= e)%nat -> degap g (slice b e s) = slice (rank g s b) (rank g s e) (degap g s)) /\
+  (forallb gap_char_ok g = true -> rc (degap g s) = degap g (rc s) /\
+     forall e, (e <= length s)%nat -> (rank g (rc s) e + rank g s (length s - e) = length (degap g s))%nat).
+Proof.
+  exact (fun g s => conj (degap_slice g s) (fun Hg => conj (rc_degap g s Hg) (fun e He => rank_rc g s e Hg He))).
+Qed.
+Print Assumptions C13_gap_bijection.
+
+(* ... and match()/matchall() as a whole (both strands, every rf form, start = 0): the result on the gapped sequence with
+   gap = g, translated (spans through the residue numbering of the forward strand, groups degapped, frames unchanged), is the result
+   on the degapped sequence with gap = None *)
+Theorem C13_gap_transparent_matchall : forall g s sub rf out, forallb gap_char_ok g = true ->
+  forallb (fun w => nonempty w && plain_word g w) (words sub) = true ->
+  matchall s sub rf 0 (Some g) = Some out ->
+  matchall (degap g s) sub rf 0 None = Some (map (degap_bm g s) out).
+Proof. exact (fun g s sub rf out Hg Hw H => matchall_gap_transparent g (words sub) Hw s sub rf out Hg eq_refl H). Qed.
+Print Assumptions C13_gap_transparent_matchall.
+
+(* the regex-tree matcher is complete: wherever a string of the language of the pattern begins the matcher reports a match
+   (of the alternative with the highest priority), and no occurrence lies outside the spans reported by finditer *)
+Theorem C13_rx_matcher_complete : forall r t u, rx_ok r = true -> lang r t -> m_rx r (t ++ u) <> None.
+Proof. exact m_rx_complete. Qed.
+Print Assumptions C13_rx_matcher_complete.
+
+Theorem C13_rx_occurrence_covered : forall r s t u p, rx_ok r = true -> nullable r = false ->
+  lang r t -> skipn p s = t ++ u ->
+  exists b e, In (b, e) (finditer_m (m_rx r) s 0 0) /\ (b <= p < e)%nat.
+Proof. exact rx_occurrence_covered. Qed.
+Print Assumptions C13_rx_occurrence_covered.
+
+(* end-to-end completeness for start/stop-like word lists (plain, prefix-free, no proper overlap): EVERY occurrence of a word,
+   gaps tolerated, at a column >= start whose residue-count frame is requested is an element of the result with its own extent,
+   text and frame -- forward strand and backward strand *)
+Theorem C13_fwd_occurrence_reported : forall g sub s rf start l out w t u p,
+  wf_sub sub = true -> forallb (plain_word g) (words sub) = true ->
+  prefix_free (words sub) = true -> no_overlap (words sub) = true ->
+  In w (words sub) -> irel (compile_word (Some g) w) t -> skipn p s = t ++ u ->
+  matchall s sub rf start (Some g) = Some out -> norm_rf rf = Some (Some l) -> has_fwd l = true ->
+  0 <= start <= Z.of_nat p ->
+  In (residues (Some g) (slice (Z.to_nat start) p s) mod 3) l ->
+  In (mk_bm (Z.of_nat p) (Z.of_nat (p + length t)) t (Some (residues (Some g) (slice (Z.to_nat start) p s) mod 3))) out.
+Proof. exact fwd_occurrence_reported. Qed.
+Print Assumptions C13_fwd_occurrence_reported.
+
+Theorem C13_bwd_occurrence_reported : forall g sub s rf start l out w t u p,
+  wf_sub sub = true -> forallb (plain_word g) (words sub) = true ->
+  prefix_free (words sub) = true -> no_overlap (words sub) = true ->
+  In w (words sub) -> irel (compile_word (Some g) w) t -> skipn p (rc s) = t ++ u ->
+  matchall s sub rf start (Some g) = Some out -> norm_rf rf = Some (Some l) -> has_bwd l = true ->
+  0 <= start <= Z.of_nat p ->
+  In (- (residues (Some g) (slice (Z.to_nat start) p (rc s)) mod 3) - 1) l ->
+  In (mk_bm (Z.of_nat (length s) - Z.of_nat (p + length t)) (Z.of_nat (length s) - Z.of_nat p) t
+        (Some (- (residues (Some g) (slice (Z.to_nat start) p (rc s)) mod 3) - 1))) out.
+Proof. exact bwd_occurrence_reported. Qed.
+Print Assumptions C13_bwd_occurrence_reported.
+
+(* a class is the alternation of its characters *)
+Theorem C13_class_is_alternation : forall cs t, lang (XCls false cs) t <-> exists c, In c cs /\ t = [c].
+Proof. exact class_is_alternation. Qed.
+Print Assumptions C13_class_is_alternation.
+
+(* non-vacuity: start on a gapped RNA sequence, both strands, against the degapped sequence without gap tolerance *)
+Example C13_witness_gap_transparent :
+  forallb (fun w => nonempty w && plain_word [x2d] w) (words (bs "start"%bs)) = true /\
+  matchall (bs "GA-UGCA-U"%bs) (bs "start"%bs) (RStr (bs "both"%bs)) 0 (Some [x2d])
+  = Some [mk_bm 1 5 (bs "A-UG"%bs) (Some 1); mk_bm 5 9 (bs "A-UG"%bs) (Some (-1))] /\
+  matchall (bs "GAUGCAU"%bs) (bs "start"%bs) (RStr (bs "both"%bs)) 0 None
+  = Some (map (degap_bm [x2d] (bs "GA-UGCA-U"%bs)) [mk_bm 1 5 (bs "A-UG"%bs) (Some 1); mk_bm 5 9 (bs "A-UG"%bs) (Some (-1))]) /\
+  map (degap_bm [x2d] (bs "GA-UGCA-U"%bs)) [mk_bm 1 5 (bs "A-UG"%bs) (Some 1); mk_bm 5 9 (bs "A-UG"%bs) (Some (-1))]
+  = [mk_bm 1 4 (bs "AUG"%bs) (Some 1); mk_bm 4 7 (bs "AUG"%bs) (Some (-1))].
+Proof. exact (conj eq_refl (conj eq_refl (conj eq_refl eq_refl))). Qed.
